@@ -269,6 +269,11 @@ def handle (toks : List String) : Option String :=
       match lo.toInt?, len.toNat?, Fp.parse e, parseDSig Fp.parse rest with
       | some lo, some len, some e, some ts => toString (dtftSum (dsigVal ts) e lo len)
       | _, _, _, _ => "bad-op"
+  -- spec: the bilateral defining sum of a literal list of F_P values with first index lo:  Σ_i vs[i] q^(lo+i)
+  | ["dtft.sumlit", lo, q, vs] => some <| Id.run do
+      match lo.toInt?, Fp.parse q, parseList Fp.parse vs with
+      | some lo, some q, some vs => toString (dtftSum (litVal vs lo) q lo vs.length)
+      | _, _, _ => "bad-op"
   -- spec: values of the DTFT term list (F_P)
   | "dtft2.vals" :: lo :: len :: "|" :: rest => some <| Id.run do
       match lo.toInt?, len.toNat?, parseDSig Fp.parse rest with
